@@ -170,6 +170,11 @@ def run(ck):
     ck.run_rule("G12", "evaluation depth does not grow with the length of a definition chain (RecursionError is an internal crash)", 6, escape.rule_G12)
     from ..rules import loops
     ck.run_rule("G13", "every while loop has a variant (template with side conditions read from the loop)", 15, loops.rule_G13)
+    ck.run_rule("G14", "recursion through '.include' is bounded by a depth guard", 1, loops.rule_G14)
+    from . import c16
+    ck.run_rule("C16.R3", "'.once' cuts inclusion cycles: the counter is advanced before the body is compiled", 3, c16.rule_R3)
+    from ..rules import deliver
+    ck.run_rule("R.deliver", "a failure always comes with its diagnostic: reports are delivered at once, never withdrawn", 6, deliver.rule_deliver)
     ck.run_rule("P1", "divisions by program values are guarded", 3, partial.rule_P1)
     ck.run_rule("P2", "every .encode(charset) on program text is guarded by a reporting handler", 3, c14.rule_P2)
     ck.run_rule("P5", "int(text, base) conversions in number() are guarded", 4, partial.rule_P5)
